@@ -194,6 +194,14 @@ def run(R):
             ln = payload_len_source(pw[1]['value'])
             R.check(is_payload_len(ln, param_of_type(fe, r'^&mut \[u8\]$'), W['header_size']), 'C03.R3', 'length=payload', site(fe, pw[1]['bb']), 'length = %s' % show(ln)[:100])
 
+    with R.guard('C03.R3', 'whole-frames'):
+        # what goes out as a DATA frame is everything encoded so far (whole length-prefixed messages), never a part of the buffer
+        pn_ = tonic.body(re.compile(r'codec::encode::EncodedBytes<T, U> as .*Stream>::poll_next$'))
+        takes_ = whole_buffer_takes(pn_)
+        for bb_, t_, ok_ in takes_:
+            R.check(ok_, 'C03.R3', 'data-frame=whole-buffer', site(pn_, bb_), 'the bytes handed out are the whole batch buffer (split_to(len) / split()): %r — a partial take (split_off, split_to(n)) puts a torn message on the wire' % ok_)
+        R.floor('C03.R3', 'buffer takes in poll_next', len(takes_), 1)
+
     # ---------------------------------------------------------------- R4 announced encoding
     R.describe('C03.R4', 'the encoding announced in grpc-encoding is the one handed to the encoder, whose flag is is_some(effective encoding); tokens/codecs per spec table')
     with R.guard('C03.R4'):
